@@ -30,6 +30,9 @@ enum Case {
     DocSparseMulti { universe: u64, values: Vec<u64>, width: u64 },
     DocRl { bits: BitsDesc, extra_sample_width: u64 },
     DocWm(Vec<u64>),
+    /// A library-written sparse vector / wavelet matrix file in which the embedded bitvectors keep only a subset of supports.
+    SparseSupports { bits: BitsDesc, mask: u8 },
+    WmSupports { values: Vec<u64>, masks: Vec<u8> },
     DocBasic(Vec<u64>, Vec<u8>, String),
 }
 
@@ -340,6 +343,40 @@ fn check_doc(ctx: &mut Ctx, c: &Case) {
             let got = lib_load::<WMCore>(&file).map(|core| core == WMCore::from(values.clone()));
             ctx.expect(|| "WMCore.load[document-written file]".to_string(), Ok(got), &Ok(true), case);
         }
+        Case::SparseSupports { bits, mask } => {
+            let m = bits.model();
+            let file = spec::rewrite_sparse_supports(&to_bytes(&sparse_from_model(&m).unwrap()), *mask).expect("codec: cannot rewrite a library-written sparse file");
+            match lib_load::<SparseVector>(&file) {
+                Ok(sv) => {
+                    let q = if m.len <= 64 { Queries::exhaustive(&m) } else { Queries::edges(&m, &[], &[16], 24, m.len <= 100_000) };
+                    check_bitvec!(ctx, &sv, &m, "SparseVector(file with a subset of supports)", &q, case);
+                }
+                Err(e) => {
+                    ctx.require(|| "SparseVector.load[file with a subset of supports]".to_string(), false, case, || json!({"observed": e}));
+                }
+            }
+        }
+        Case::WmSupports { values, masks } => {
+            let file = spec::rewrite_wm_supports(&to_bytes(&WaveletMatrix::from(values.clone())), masks).expect("codec: cannot rewrite a library-written wavelet matrix file");
+            match lib_load::<WaveletMatrix>(&file) {
+                Ok(wm) => {
+                    ctx.expect(|| "WaveletMatrix(file with subsets of supports).iter".to_string(), guard(|| wm.iter().collect::<Vec<u64>>()), values, case);
+                    let max = values.iter().copied().max().unwrap_or(0);
+                    for v in 0..=max + 1 {
+                        let occ: Vec<usize> = values.iter().enumerate().filter(|(_, &x)| x == v).map(|(i, _)| i).collect();
+                        for i in 0..=values.len() {
+                            ctx.expect(|| "WaveletMatrix(file with subsets of supports).rank".to_string(), guard(|| wm.rank(i, v)), &occ.iter().filter(|&&p| p < i).count(), case);
+                        }
+                        for r in 0..=occ.len() {
+                            ctx.expect(|| "WaveletMatrix(file with subsets of supports).select".to_string(), guard(|| wm.select(r, v)), &occ.get(r).copied(), case);
+                        }
+                    }
+                }
+                Err(e) => {
+                    ctx.require(|| "WaveletMatrix.load[file with subsets of supports]".to_string(), false, case, || json!({"observed": e}));
+                }
+            }
+        }
         Case::DocBasic(v, b, s) => {
             let mut file = Vec::new();
             spec::write_vec_u64(&mut file, v);
@@ -479,6 +516,23 @@ fn explore(ctx: &mut Ctx) {
     for v in &wms {
         if v.len() <= ctx.tier.pick(5, 6) || v.len() >= 16 {
             docs.push(Case::DocWm(v.clone()));
+        }
+    }
+    // Support structures present / absent one by one in embedded bitvectors.
+    for len in 0..=ctx.tier.pick(5, 7) {
+        for word in 0..(1u64 << len) {
+            for mask in 0..8u8 {
+                docs.push(Case::SparseSupports { bits: BitsDesc::Word { len, word }, mask });
+            }
+        }
+    }
+    for mask in 0..8u8 {
+        docs.push(Case::SparseSupports { bits: BitsDesc::Letters(vec![Letter::Every(7, 700), Letter::Ones(70)]), mask });
+    }
+    for v in [vec![1u64, 0, 1, 0], vec![3, 1, 4, 1, 5, 9, 2, 6], vec![0, 0, 0], vec![7, 7, 2]] {
+        for a in 0..8u8 {
+            docs.push(Case::WmSupports { values: v.clone(), masks: vec![a, 7 - a] });
+            docs.push(Case::WmSupports { values: v.clone(), masks: vec![a] });
         }
     }
     docs.push(Case::DocBasic(vec![], vec![], String::new()));
